@@ -1680,3 +1680,27 @@ def thorough(chk):
                   '%d interpreted cases' % cnt,
                   'unit %r: reference %s, N=%s, is_future=%s gives %s, calendar arithmetic gives %s' % ((L,) + (bad or (0, 0, 0, 0, 0))),
                   gdr.lineno)
+
+
+
+# ---------------------------------------------------------------------------------------------------------------
+# generic rules (lead): cross-cutting necessary conditions scoped to the modules this property is anchored in
+# (sa/generic.py: filter predicates depend on their element; regex group names read by the code exist)
+
+def _generic_rules(chk):
+    import re as _re_
+    from ..index import get_index as _gi
+    from ..consteval import Resources as _Res
+    from .. import generic as _g
+    idx_ = _gi()
+    scope = _re_.compile('^(base_)?dateperiod')
+    flt = lambda name: bool(scope.search(name.rsplit('.', 1)[-1]))
+    _g.rule_group_names(chk, idx_, _Res(idx_), 'C08.groups', 'recognizers_date_time', flt, floor=3)
+
+
+_run_before_generic = run
+
+
+def run(chk):       # noqa: F811
+    _run_before_generic(chk)
+    _generic_rules(chk)
